@@ -180,6 +180,7 @@ def run(ck):
     st["model_disagreements"] = ndis
     ck.count("graphs", len(cases), nontriv, sample={"graph": cases[len(cases) // 3][1], "impl": a[len(cases) // 3][:300], "model": b[len(cases) // 3]})
     spellings(ck)
+    shadowed(ck)
     return ck.finish(extra_cov={"exhaustive": True}, **FINISH)
 
 
@@ -221,6 +222,76 @@ def spellings(ck):
             ck.fail(["C16", "spelling", name], "an include that resolves nowhere gets %s" % ("a link" if links else "no diagnostic"), case, json.dumps([nf, links])[:300],
                     "a not-found diagnostic and no link")
     ck.count("spellings", len(cases), {c[0] for c in cases}, sample={"case": cases[0][0], "files": cases[0][1]})
+
+
+def shadowed(ck):
+    """the same spelling exists next to some including files AND in INCLUDE_DIR, files sit in several directories and are reached in
+    different orders: every include still resolves to the including file's directory first, then INCLUDE_DIR - whatever was
+    collected before.  Each file carries a fault of its own, so the diagnostics name exactly the files of the workspace."""
+    rng = ck.rng
+    dirs = ["/w", "/w/sub", "/w/q", "/inc"]
+    cases = []
+    fixed = [
+        {"/w/main.td": ["x0.td", "sub/a.td"], "/inc/x0.td": [], "/w/sub/a.td": ["x0.td"], "/w/sub/x0.td": []},
+        {"/w/main.td": ["sub/a.td", "x0.td"], "/inc/x0.td": [], "/w/sub/a.td": ["x0.td"], "/w/sub/x0.td": []},
+        {"/w/main.td": ["sub/a.td", "q/b.td"], "/w/sub/a.td": ["x0.td"], "/inc/x0.td": [], "/w/q/b.td": ["c.td"], "/w/q/c.td": ["x0.td"], "/w/q/x0.td": []},
+        {"/w/main.td": ["x0.td", "sub/x0.td"], "/w/x0.td": ["x1.td"], "/w/sub/x0.td": ["x1.td"], "/inc/x1.td": [], "/w/sub/x1.td": []},
+    ]
+    for f in fixed:
+        cases.append(f)
+    for _ in range(120 if ck.tier == "quick" else 6000):
+        names = ["x%d.td" % k for k in range(rng.randrange(2, 5))]
+        present = {"/w/main.td"} | {d + "/" + n for d in dirs for n in names if rng.random() < 0.55}
+        spell = names + ["sub/" + n for n in names] + ["q/" + n for n in names]
+        cases.append({pth: [rng.choice(spell) for _ in range(rng.choice([0, 1, 2, 2, 3]))] for pth in sorted(present)})
+    lines, exps = [], []
+    for c in cases:
+        tags = {pth: "M%d" % i for i, pth in enumerate(sorted(c))}
+        files = {pth: "".join('include "%s"\n' % sp for sp in incs) + "def u%s : %s;\n" % (tags[pth], tags[pth]) for pth, incs in c.items()}
+        # expected: a walk from the root, each spelling looked up next to the including file, then in INCLUDE_DIR
+        link, seen, todo = {}, {"/w/main.td"}, ["/w/main.td"]
+        while todo:
+            cur = todo.pop(0)
+            d = cur.rsplit("/", 1)[0]
+            row = []
+            for sp in c[cur]:
+                hit = next((x for x in (d + "/" + sp, "/inc/" + sp) if x in c), None)
+                row.append(hit)
+                if hit and hit not in seen:
+                    seen.add(hit)
+                    todo.append(hit)
+            link[cur] = row
+        order = sorted(seen)
+        lines.append("ws " + json.dumps({"files": files, "root": "/w/main.td", "include_dir": "/inc", "queries": [["diagnostics"]] + [["document_link", f] for f in order]}))
+        exps.append((files, tags, link, order))
+    outs = core.impl(lines, tag="sh16")
+    nshadow = 0
+    for (files, tags, link, order), line, o in zip(exps, lines, outs):
+        case = {"files": files, "root": "/w/main.td", "include_dir": "/inc"}
+        try:
+            ans = json.loads(o)
+        except Exception:
+            ck.fail(["C16", "shadowed", "abort"], "workspace aborts: %s" % o[:80], case, o[:200], "answers")
+            continue
+        got_ws = sorted({f for f, ds in ans[0] if any(d[3].endswith(": " + tags.get(f, "?")) for d in ds)})
+        if got_ws != order:
+            ck.fail(["C16", "shadowed", "workspace"], "the workspace is %s, the files reachable through includes (own directory first, then INCLUDE_DIR) are %s" % (got_ws, order),
+                    case, json.dumps(got_ws), json.dumps(order))
+            continue
+        for f, lk in zip(order, ans[1:]):
+            want = [t for t in link[f] if t]
+            got = [x[2] for x in (lk or [])]
+            if got != want:
+                ck.fail(["C16", "shadowed", "link"], "the includes of %s link to %s, they resolve to %s" % (f, got, want), case, json.dumps(got), json.dumps(want))
+                break
+            nf = sum(1 for ff, ds in ans[0] if ff == f for d in ds if "not found" in d[3] and "class not found" not in d[3])
+            if nf != sum(1 for t in link[f] if t is None):
+                ck.fail(["C16", "shadowed", "not-found"], "%s has %d not-found diagnostics for %d includes that resolve nowhere" % (f, nf, sum(1 for t in link[f] if t is None)),
+                        case, str(nf), "one per unresolved include")
+                break
+        if any(("/inc/" + sp) in files and (f.rsplit("/", 1)[0] + "/" + sp) in files and not f.startswith("/inc/") for f in order for sp in [x for x in cases[exps.index((files, tags, link, order))][f]]):
+            nshadow += 1
+    ck.count("shadowed_includes", len(cases), {json.dumps(c, sort_keys=True) for c in cases}, sample={"files": exps[0][0]}, with_a_spelling_in_both_places=nshadow)
 
 
 def reach(res):
